@@ -6,7 +6,8 @@ import glob, json, os, re, subprocess, sys
 
 VERIF = os.path.dirname(os.path.dirname(os.path.abspath(__file__)))
 ROUND = {"a": "round 1", "b": "round 2", "c": "round 3 (themes: history-dependent, configuration-dependent, two cooperating sites, numeric-type dependent)",
-         "d": "round 4 (themes: history-, configuration-, numeric-type/range-, structure-dependent, untouched code region)"}
+         "d": "round 4 (themes: history-, configuration-, numeric-type/range-, structure-dependent, untouched code region)",
+         "e": "round 5 (theme: adversarial to randomised checking - rare coincidences, everyday values, order of steps, surviving state)"}
 dirs = sys.argv[1:] or sorted(d for d in glob.glob(os.path.join(VERIF, "seeded", "C*-*")) if not os.path.exists(os.path.join(d, "meta.json")))
 head = subprocess.run(["git", "-C", "/repo", "rev-parse", "--short", "HEAD"], capture_output=True, text=True).stdout.strip()
 for d in dirs:
